@@ -600,6 +600,21 @@ def _simple_open_args(rng, depth, cap, k=None, maxnd=2):
     return 1, (4,), 3, 2, np.full((depth, 1), 2)
 
 
+def _construct(ctor, sarr, window):
+    """SimpleOpenGrid chooses shape0 itself from min_shape/splits/window.  For an axis with a level that
+    does not refine (split 1) but still loses 2*padding pixels, NIFTy's estimate can be too small and the
+    OpenGrid constructor then refuses the (genuinely non-constructible) non-positive level shape.  Such a
+    refusal is a skipped case; a refusal of any other parameter set is not swallowed."""
+    try:
+        return ctor()
+    except AssertionError:
+        degenerate = window > 1 and np.size(sarr) > 0 and bool(np.any(np.asarray(sarr) == 1))
+        if degenerate:
+            from vf.runner import Skip
+            raise Skip("SimpleOpenGrid: non-refining level (split 1) with padding -> level shape <= 0")
+        raise
+
+
 def gen_simpleopen(ck, rng, depth, cap, kind="simple", k=None):
     """SimpleOpenGrid / LogGrid / BrokenLogGrid.  shape0 is NIFTy's own (heuristic) choice and is
     read from the grid; the final shape must be >= min_shape; padding = (window-1)//2."""
@@ -619,19 +634,19 @@ def gen_simpleopen(ck, rng, depth, cap, kind="simple", k=None):
         if dist is not None:
             kw["distances"] = dist
             desc["distances"] = dist
-        g = GI.SimpleOpenGrid(**kw)
+        g = _construct(lambda: GI.SimpleOpenGrid(**kw), sarr, window)
         desc["t"] = "SimpleOpenGrid"
     elif kind == "log":
         r_min = rfloat(rng, 0.01, 10, log=True)
         r_max = float(f"{r_min * rfloat(rng, 1.5, 1e3, log=True):.5g}")
-        g = GI.LogGrid(r_min=r_min, r_max=r_max, **kw)
+        g = _construct(lambda: GI.LogGrid(r_min=r_min, r_max=r_max, **kw), sarr, window)
         desc.update(t="LogGrid", r_min=r_min, r_max=r_max)
         transform = log_transform(r_min, r_max)
     else:
         r_min = rfloat(rng, 0.01, 10, log=True)
         r_lt = float(f"{r_min * rfloat(rng, 1.0, 20, log=True):.5g}")
         r_max = float(f"{r_lt * rfloat(rng, 1.5, 100, log=True):.5g}")
-        g = GI.BrokenLogGrid(r_min=r_min, r_linthresh=r_lt, r_max=r_max, **kw)
+        g = _construct(lambda: GI.BrokenLogGrid(r_min=r_min, r_linthresh=r_lt, r_max=r_max, **kw), sarr, window)
         desc.update(t="BrokenLogGrid", r_min=r_min, r_linthresh=r_lt, r_max=r_max)
         transform = brokenlog_transform(r_min, r_lt, r_max)
     pad = (window - 1) // 2
